@@ -34,7 +34,7 @@ Qed.
 
 Theorem rinv_step s o : sinv s -> wf_step s o -> rinv s -> rinv (fst (step s o)).
 Proof.
-  intros [UO IL] W R. destruct o as [id key sf deny t0|r payload pc h|r src size|r key|r mh|r io|r payload pc h|r|osrc okeep oid okey osf odeny]; cbn [step].
+  intros [UO IL] W R. destruct o as [id key sf deny t0|r payload pc h|r src size|r key|r mh|r io|r payload pc h|r|osrc okeep ohh oid okey osf odeny]; cbn [step].
   - intros r l H. cbn [fst s_logs] in H.
     destruct (Nat.lt_ge_cases r (length (s_logs s))) as [Hl|Hl].
     + rewrite nth_error_app1 in H by assumption. eauto.
@@ -164,7 +164,7 @@ Qed.
 
 Theorem stinv_step s o : sinv s -> wf_step s o -> rinv s -> stinv s -> stinv (fst (step s o)).
 Proof.
-  intros [UO IL] W R [SO SH]. destruct o as [id key sf deny t0|r payload pc h|r src size|r key|r mh|r io|r payload pc h|r|osrc okeep oid okey osf odeny]; cbn [step].
+  intros [UO IL] W R [SO SH]. destruct o as [id key sf deny t0|r payload pc h|r src size|r key|r mh|r io|r payload pc h|r|osrc okeep ohh oid okey osf odeny]; cbn [step].
   - split; [exact SO|]. cbn [fst s_logs s_store]. intros r l H.
     destruct (Nat.lt_ge_cases r (length (s_logs s))) as [Hl|Hl].
     + rewrite nth_error_app1 in H by assumption. eauto.
@@ -233,7 +233,7 @@ Proof. unfold add_block. destruct (existsb (fun b => N.eqb (fst b) h) st); [exis
 Lemma step_store_extends s o : exists suf, s_store (fst (step s o)) = s_store s ++ suf.
 Proof.
   assert (Same : exists suf, s_store s = s_store s ++ suf) by (exists []; now rewrite app_nil_r).
-  destruct o as [id key sf deny t0|r payload pc h|r src size|r key|r mh|r io|r payload pc h|r|osrc okeep oid okey osf odeny]; cbn [step]; cbn [fst s_store]; auto.
+  destruct o as [id key sf deny t0|r payload pc h|r src size|r key|r mh|r io|r payload pc h|r|osrc okeep ohh oid okey osf odeny]; cbn [step]; cbn [fst s_store]; auto.
   - destruct (nth_error (s_logs s) r) as [l|]; [|exact Same].
     destruct (append l payload pc h) as [l' [e|[]|]]; cbn [fst s_store]; auto using add_block_extends.
     destruct (append_entry l payload pc h); cbn [fst s_store]; auto using add_block_extends.
